@@ -212,6 +212,13 @@ class ExonCorrector:
 
             i = event.read_region[1] + 1
 
+        last_exon_key = -len(corrected_introns) - 1
+        if corrected_introns and last_exon_key in event_map:
+            # fake IR inside the last read exon
+            fake_ir_intron = isoform_introns[event_map[last_exon_key].isoform_region[0]]
+            if fake_ir_intron[1] <= corrected_read_region[1]:
+                new_introns.append(fake_ir_intron)
+
         return corrected_read_region, new_introns
 
 
